@@ -272,4 +272,30 @@ theorem headers_priority_frame_size_counterexample :
     (history (run (cfgHdrPrio Fixes.all) opsBigHeaders)).drop 4 =
       [.c (.headers 1 16384 true false), .c (.continuation 1 3621 true)] := by decide
 
+
+/-! ### below lock granularity: the SETTINGS-acknowledgement race (not repaired, known finding)
+
+`conn_conforms` treats "decide the size of a DATA frame" (`awaitFlowControl`, under `cc.mu`) and
+"write it" (under `cc.wmu`) as one step. The real code releases the lock in between, and
+`processSettings` — which applies the peer's SETTINGS and writes the acknowledgement while
+holding both locks — can run there. The frame then arrives after the acknowledgement although it
+was sized under the old values. The history below is that interleaving: the frame comes from the
+model's own `writeStep`, only its position is later. The strict peer rejects it; the
+race-tolerant reading used to classify this known finding in the monitor lane accepts it. The
+concurrent monitor lane observes this on the implementation (finding `c06-settings-ack-race`). -/
+
+def raceHistory : List Event :=
+  let r := run exampleCfg [.peer (.settings [(sInitialWindowSize, 65535)]), .openStream 40 60000 true, .feed 1 0]
+  match findStream r.1.streams 1 with
+  | none => []
+  | some s =>
+    match writeStep r.1.connOut r.1.maxFrameSize s with
+    | none => []
+    | some (_, _, f) => r.2 ++ [.p (.settings [(sInitialWindowSize, 4096)]), .c .settingsAck, .c f]
+
+theorem settings_ack_race_counterexample :
+    raceHistory.getLast? = some (.c (.data 1 16384 false)) ∧
+    Monitor raceHistory = false ∧
+    (match Tolerant.init.run raceHistory with | .ok _ => true | .error _ => false) = true := by decide
+
 end Req.Props.C06
